@@ -30,6 +30,9 @@ use crate::RactorMessage;
 
 const FRAME_READ_CHUNK_SIZE: usize = 8 * 1024;
 
+#[cfg(slawlor_ractor_verif)]
+pub mod verif;
+
 /// Helper method to read exactly `len` bytes while growing the payload only as data arrives.
 async fn read_n_bytes(stream: &mut ActorReadHalf, len: usize) -> Result<Vec<u8>, tokio::io::Error> {
     let mut buf = Vec::new();
